@@ -19,6 +19,15 @@ LEAF = {
     "value": ("zvariant::OwnedValue", "zvariant::OwnedValue::try_from(zvariant::Value::U32(77)).unwrap()", "v", {"t": {"k": "u"}, "v": {"b": [0, 0, 0, 77]}}),
     "duration": ("std::time::Duration", "std::time::Duration::new(3, 7)", None, {"r": [{"b": [0, 0, 0, 0, 0, 0, 0, 3]}, {"b": [0, 0, 0, 7]}]}),
     "ipv4": ("std::net::Ipv4Addr", "std::net::Ipv4Addr::new(1, 2, 3, 4)", None, {"r": [{"b": [1]}, {"b": [2]}, {"b": [3]}, {"b": [4]}]}),
+    # the std atomics (library impls behind the harness's transparent wrappers crate::At*); values above the signed maximum
+    "at_bool": ("crate::AtBool", "crate::AtBool(std::sync::atomic::AtomicBool::new(true))", "b", {"b": [0, 0, 0, 1]}),
+    "at_u8": ("crate::AtU8", "crate::AtU8(std::sync::atomic::AtomicU8::new(0xF7))", "y", {"b": [0xF7]}),
+    "at_i16": ("crate::AtI16", "crate::AtI16(std::sync::atomic::AtomicI16::new(-2))", "n", {"b": [255, 254]}),
+    "at_u16": ("crate::AtU16", "crate::AtU16(std::sync::atomic::AtomicU16::new(0xF102))", "q", {"b": [0xF1, 2]}),
+    "at_i32": ("crate::AtI32", "crate::AtI32(std::sync::atomic::AtomicI32::new(-3))", "i", {"b": [255, 255, 255, 253]}),
+    "at_u32": ("crate::AtU32", "crate::AtU32(std::sync::atomic::AtomicU32::new(0xF1020304))", "u", {"b": [0xF1, 2, 3, 4]}),
+    "at_i64": ("crate::AtI64", "crate::AtI64(std::sync::atomic::AtomicI64::new(-4))", "x", {"b": [255] * 7 + [252]}),
+    "at_u64": ("crate::AtU64", "crate::AtU64(std::sync::atomic::AtomicU64::new(0xF102030405060708))", "t", {"b": [0xF1, 2, 3, 4, 5, 6, 7, 8]}),
 }
 DER = "#[derive(zvariant::Type, serde::Serialize, serde::Deserialize, PartialEq, Debug, Clone)]"
 
